@@ -160,6 +160,12 @@ def run(rep: Report, tier: str) -> None:  # noqa: C901
     from sa.checks.c12 import alias_after_operand, traversal_on_every_path
     alias_after_operand(P, rep, "R04.8")
     traversal_on_every_path(P, rep, "R04.8", {"JoinOp", "BinOp"})
+    # ---- R04.10 join keys of type Time_Period are matched as text: one stored text per period ----
+    rep.rule("R04.10", "every accepted spelling of a Time_Period is stored as the one canonical text (join keys of type Time_Period are matched as text)")
+    from sa import sqlx as _sqlx_g
+    from sa.checks.c19 import period_limits as _pl_g
+    from sa.checks.c21 import spelling_grid as _sg_g
+    _sg_g(rep, "R04.10", {k.lower(): v for k, v in _sqlx_g.load_macros(P).items()}, _pl_g(P))
     rep.assumptions = ["DuckDB join semantics for the emitted ON clause", "SQLBuilder.join writes `<keyword> JOIN` from its join_type argument (read from the source)"]
 
 
